@@ -69,36 +69,44 @@ Definition is_ascii_ws (b : byte) : bool :=
 Definition e280_space (b : byte) : bool :=
   ((128 <=? bN b)%N && (bN b <=? 138)%N) || beqb b xa8 || beqb b xa9 || beqb b xaf.
 
+(* two- and three-byte UTF-8 encodings of the Unicode white-space runes above U+007F *)
+Definition ws2 (b c1 : byte) : bool := beqb b xc2 && (beqb c1 x85 || beqb c1 xa0).
+Definition ws3 (b c1 c2 : byte) : bool :=
+  (beqb b xe1 && beqb c1 x9a && beqb c2 x80) ||
+  (beqb b xe2 && beqb c1 x80 && e280_space c2) ||
+  (beqb b xe2 && beqb c1 x81 && beqb c2 x9f) ||
+  (beqb b xe3 && beqb c1 x80 && beqb c2 x80).
+
 Fixpoint trim_left (s : bytes) : bytes :=
   match s with
   | [] => []
   | b :: t =>
       if is_ascii_ws b then trim_left t else
-      match b, t with
-      | xc2, x85 :: t' => trim_left t'
-      | xc2, xa0 :: t' => trim_left t'
-      | xe1, x9a :: x80 :: t' => trim_left t'
-      | xe2, x80 :: c :: t' => if e280_space c then trim_left t' else s
-      | xe2, x81 :: x9f :: t' => trim_left t'
-      | xe3, x80 :: x80 :: t' => trim_left t'
-      | _, _ => s
+      match t with
+      | [] => s
+      | c1 :: t1 =>
+          if ws2 b c1 then trim_left t1 else
+          match t1 with
+          | [] => s
+          | c2 :: t2 => if ws3 b c1 c2 then trim_left t2 else s
+          end
       end
   end.
 
-(* the same recogniser on the reversed string (continuation bytes come first) *)
+(* the same recogniser on the reversed string (the last byte comes first) *)
 Fixpoint trim_left_rev (s : bytes) : bytes :=
   match s with
   | [] => []
   | b :: t =>
       if is_ascii_ws b then trim_left_rev t else
-      match b, t with
-      | x85, xc2 :: t' => trim_left_rev t'
-      | xa0, xc2 :: t' => trim_left_rev t'
-      | x80, x9a :: xe1 :: t' => trim_left_rev t'
-      | x80, x80 :: xe3 :: t' => trim_left_rev t'
-      | x9f, x81 :: xe2 :: t' => trim_left_rev t'
-      | c, x80 :: xe2 :: t' => if e280_space c then trim_left_rev t' else s
-      | _, _ => s
+      match t with
+      | [] => s
+      | c1 :: t1 =>
+          if ws2 c1 b then trim_left_rev t1 else
+          match t1 with
+          | [] => s
+          | c2 :: t2 => if ws3 c2 c1 b then trim_left_rev t2 else s
+          end
       end
   end.
 
